@@ -12,6 +12,7 @@ Generated/C04Facts.lean (written by translate/c04.py from the current simulator.
 `C04_source_facts` lists the values the proofs rest on.
 -/
 import MxlVerif.Lemmas.C04Hist
+import MxlVerif.Lemmas.C04Search
 namespace Mxl.C04
 
 /-! ## The facts of the current source the proofs rest on -/
@@ -268,11 +269,132 @@ theorem C04_steady_continues {σ} (S : Sys σ) (p : Pars) (y0 : σ) (ops : List 
       simp only [Spec.step, Spec.steady, hf, Bool.false_eq_true, if_false, hk] at this
       simpa using this
 
-/-- a failed simulator (after `NoSteadyState`) ignores every simulating call: no exception, nothing recorded -/
+/-- THE SOLVER'S ANSWER IS NOT A FREE INPUT.  `Op.steady res` takes the iteration at which the steady-state loop stopped as
+    an input; this theorem says which: run the C15 loop (`Mxl.C15.ssRun`, with the loop facts read from the source) on the
+    flow sampled every `step_size` from the integrator's current state.  If it succeeds at step `n` with state `r`, the
+    C04 machine fed with that answer records exactly one row — at the integrator's clock + `n·step_size`, holding `r` — and
+    moves the integrator there; if it ends in `NoSteadyState` or `IntegrationFailure`, nothing is recorded and the
+    simulator is failed. (`IsFlow`: the solver's steps compose to the flow; any `ok` / `small`.) -/
+theorem C04_steady_is_the_search {σ} (S : Sys σ) (hS : IsFlow S) (s : Sim σ) (ok : σ → Bool) (small : σ → σ → Bool)
+    (hlive : s.errors = 0) :
+    let search := Mxl.C15.ssRun Mxl.C15.Gen.copies Mxl.C15.Gen.checks
+      (S.flow s.pars (Mxl.C15.Gen.stepSize : Rat)) ok small Mxl.C15.Gen.maxSteps s.integ.y0
+    (∀ n r, search = .steady n r →
+      steady S s (resOfSearch search) =
+        (handle { s with integ := { s.integ with
+            t0 := s.integ.t0 + (n : Rat) * (Mxl.C15.Gen.stepSize : Rat), y0 := r } }
+          [(s.integ.t0 + (n : Rat) * (Mxl.C15.Gen.stepSize : Rat), r)] false, none)) ∧
+    (Mxl.C15.errOf search ≠ none →
+      steady S s (resOfSearch search) = ({ s with errors := s.errors + 1 }, none)) := by
+  intro search
+  constructor
+  · intro n r h
+    have h' : Mxl.C15.ssLoop true true (S.flow s.pars (Mxl.C15.Gen.stepSize : Rat)) ok small Mxl.C15.Gen.maxSteps 0
+        (.val s.integ.y0) s.integ.y0 = .steady n r := h
+    obtain ⟨m, hm, hn, hr, _⟩ := Mxl.C15.ssLoop_copy_steady _ ok small _ 0 s.integ.y0 n r h'
+    have hn' : n = m + 1 := by omega
+    subst hn'
+    have hd : (0 : Rat) ≤ (Mxl.C15.Gen.stepSize : Rat) := Nat.cast_nonneg _
+    have hflow := flow_iter S hS s.pars (Mxl.C15.Gen.stepSize : Rat) hd (m + 1) s.integ.y0
+    have hit : steadyIter (some m) = some m := by
+      have : m < Gen.maxSteps := by rw [gen_search_agree.2]; exact hm
+      simp [steadyIter, this]
+    have hdur : steadyDur m = ((m + 1 : Nat) : Rat) * (Mxl.C15.Gen.stepSize : Rat) := by
+      unfold steadyDur
+      rw [gen_search_agree.1]
+      push_cast
+      ring
+    rw [h]
+    simp only [resOfSearch, Nat.add_sub_cancel, steady, hlive, Nat.lt_irrefl, if_false, gt_iff_lt,
+      integrateToSteadyState_eq, hit, gen_steadySkipfirst, hdur]
+    rw [← hflow, ← hr]
+  · intro hne
+    have hres : resOfSearch search = none := by
+      cases hs : search with
+      | steady n r => simp [hs, Mxl.C15.errOf] at hne
+      | noSteadyState => rfl
+      | integrationFailure => rfl
+    rw [hres]
+    simp [steady, hlive, integrateToSteadyState_eq, steadyIter]
+
+/-- a failed simulator (after `NoSteadyState` or an `IntegrationFailure`) ignores every simulating call: no exception,
+    nothing recorded -/
 theorem C04_failed_is_inert {σ} (S : Sys σ) (s : Sim σ) (op : Op) (hf : s.errors > 0)
-    (hop : (∃ t n, op = .simulate t n) ∨ (∃ pts, op = .timeCourse pts) ∨ (∃ r, op = .steady r)) :
+    (hop : (∃ t n, op = .simulate t n) ∨ (∃ pts, op = .timeCourse pts) ∨ (∃ r, op = .steady r) ∨
+      (∃ t n, op = .simulateF t n) ∨ (∃ pts, op = .timeCourseF pts)) :
     step S s op = (s, none) := by
-  rcases hop with ⟨t, n, rfl⟩ | ⟨pts, rfl⟩ | ⟨r, rfl⟩ <;> simp [step, simulate, timeCourse, steady, hf]
+  rcases hop with ⟨t, n, rfl⟩ | ⟨pts, rfl⟩ | ⟨r, rfl⟩ | ⟨t, n, rfl⟩ | ⟨pts, rfl⟩ <;>
+    simp [step, simulate, timeCourse, steady, simulateF, timeCourseF, hf]
+
+/-! ## A failing solver (`IntegrationFailure`) -/
+
+/-- WHAT A FAILED INTEGRATION LEAVES BEHIND.  `simulate` / `simulate_time_course` whose solver reports failure, in any
+    simulator state: the call raises exactly what the succeeding call raises (same class or none); it records
+    nothing and leaves parameters, initial values, time shift AND the integrator (`t0`, `y0`) where they were; and
+    when it does not raise the simulator is failed afterwards (so by `C04_failed_is_inert` every later simulating call is
+    ignored until `clear_results`). -/
+theorem C04_solver_failure {σ} (S : Sys σ) (s : Sim σ) (op opF : Op)
+    (hop : (∃ t n, op = .simulate t n ∧ opF = .simulateF t n) ∨
+           (∃ pts, op = .timeCourse pts ∧ opF = .timeCourseF pts)) :
+    (step S s opF).2 = (step S s op).2 ∧
+    (step S s opF).1.segs = s.segs ∧ (step S s opF).1.pars = s.pars ∧ (step S s opF).1.y0 = s.y0 ∧
+    (step S s opF).1.shift = s.shift ∧ (step S s opF).1.integ = s.integ ∧
+    ((step S s opF).2 = none → (step S s opF).1.errors > 0) := by
+  have key : ∀ x : Out (Sim σ), (failInstead s x).2 = x.2 ∧ (failInstead s x).1.segs = s.segs ∧
+      (failInstead s x).1.pars = s.pars ∧ (failInstead s x).1.y0 = s.y0 ∧ (failInstead s x).1.shift = s.shift ∧
+      (failInstead s x).1.integ = s.integ ∧ ((failInstead s x).2 = none → (failInstead s x).1.errors > 0) := by
+    intro x
+    unfold failInstead
+    cases hx : x.2 with
+    | some e => simp
+    | none =>
+      by_cases he : s.errors > 0
+      · simp [he]
+      · simp [he]
+  rcases hop with ⟨t, n, rfl, rfl⟩ | ⟨pts, rfl, rfl⟩
+  · simp only [step, simulateF_eq]; exact key _
+  · simp only [step, timeCourseF_eq]; exact key _
+
+/-- ... hence after any history on a live simulator a failing `simulate(t)` is refused (ValueError) iff `t ≤` the time
+    reached, and otherwise turns the simulator into a failed one with the results it had. -/
+theorem C04_solver_failure_refusal_iff {σ} (S : Sys σ) (p : Pars) (y0 : σ) (ops : List Op) (t : Rat)
+    (n : Option Nat) (hlive : (after S p y0 ops).errors = 0)
+    (T : Rat) (hT : reached? (after S p y0 ops).segs = .ok T) :
+    ((step S (after S p y0 ops) (.simulateF t n)).2 = some .valueError ↔ t ≤ T) ∧
+    (after S p y0 (ops ++ [.simulateF t n])).segs = (after S p y0 ops).segs ∧
+    ((step S (after S p y0 ops) (.simulateF t n)).2 = none →
+      (specAfter S p y0 (ops ++ [.simulateF t n])).failed = true) := by
+  obtain ⟨h2, hsegs, _, _, _, _, hfail⟩ :=
+    C04_solver_failure S (after S p y0 ops) (.simulate t n) (.simulateF t n) (Or.inl ⟨t, n, rfl, rfl⟩)
+  obtain ⟨_, _, r', hafter, _, _⟩ := last_step S p y0 ops (.simulateF t n)
+  refine ⟨?_, ?_, ?_⟩
+  · rw [h2]; exact (C04_refusal_iff S p y0 ops t n hlive T hT).1
+  · rw [hafter]; exact hsegs
+  · intro hnone
+    have := hfail hnone
+    rw [← hafter] at this
+    rw [← r'.failed]
+    simpa using this
+
+/-! ## Scaled parameters -/
+
+/-- `scale_parameter(s)` is `update_parameter(s)` with every named value multiplied by its factor — all factors applied
+    to the values the parameters had BEFORE the call, names in the caller's order; an unknown name raises KeyError
+    and changes nothing.  (So, like a parameter update, it touches neither the results nor the clock.) -/
+theorem C04_scale_is_update {σ} (S : Sys σ) (s : Sim σ) (kvs : Upd) :
+    (∀ u, scaledValues s.pars kvs = some u →
+      step S s (.scalePars kvs) = step S s (.updPars u) ∧
+      u.length = kvs.length ∧
+      ∀ i (h : i < kvs.length) (h' : i < u.length), u[i].1 = kvs[i].1 ∧
+        ∃ v, s.pars.lookup kvs[i].1 = some v ∧ u[i].2 = v * kvs[i].2) ∧
+    (scaledValues s.pars kvs = none →
+      step S s (.scalePars kvs) = (s, some .keyError) ∧ ∃ kf ∈ kvs, s.pars.lookup kf.1 = none) := by
+  constructor
+  · intro u hu
+    refine ⟨by simp [step, scalePars, updPars, parsScale, hu], ?_⟩
+    exact scaledValues_some s.pars kvs u hu
+  · intro hn
+    exact ⟨by simp [step, scalePars, parsScale, hn], scaledValues_none s.pars kvs hn⟩
 
 /-! ## Non-vacuity -/
 
@@ -286,5 +408,12 @@ example : times (after termSys [("k", 1/2)] STerm.init
 /-- a steady-state run that does not converge within `max_steps` iterations fails the simulator -/
 example : (after termSys [] STerm.init [.steady (some 1000), .simulate 1 none]).errors = 1 ∧
     (after termSys [] STerm.init [.steady (some 1000), .simulate 1 none]).segs = none := by decide +kernel
+
+/-- non-vacuity of `C04_steady_is_the_search`: a system that rests (constant flow) is a flow, and the C15 loop succeeds on it
+    at the first step -/
+example : IsFlow (⟨fun _ _ y => y, fun _ y => y⟩ : Sys Rat) ∧
+    Mxl.C15.ssRun Mxl.C15.Gen.copies Mxl.C15.Gen.checks ((⟨fun _ _ y => y, fun _ y => y⟩ : Sys Rat).flow [] 100)
+      (fun _ => true) (fun a b => a == b) Mxl.C15.Gen.maxSteps (3 : Rat) = .steady 1 3 :=
+  ⟨⟨fun _ _ => rfl, fun _ _ _ _ _ _ => rfl⟩, by decide +kernel⟩
 
 end Mxl.C04
